@@ -297,10 +297,16 @@ def lsb_value(rs, as_given=False):
     return m
 
 
-def open_reader(pb, rs):
-    """Construct the pulsarbat reader described by rs."""
+def open_reader(pb, rs, owned=None):
+    """Construct the pulsarbat reader described by rs. If `owned` is a dict, the
+    caller-owned constructor arguments (name list, sideband flags, signal_kwargs dict) are
+    stored in it so that a check can watch them."""
     import astropy.units as u
     name = rs["name"]
+    if isinstance(name, list):
+        name = list(name)
+    if owned is not None:
+        owned["name"] = name
     if rs["cls"] == "GUPPIRawReader":
         return pb.readers.GUPPIRawReader(name)
     if rs["cls"] == "DADAStokesReader":
@@ -318,6 +324,9 @@ def open_reader(pb, rs):
     if rs.get("intensity"):
         kw["intensity"] = True
     lsb = lsb_value(rs, as_given=True)
+    if owned is not None:
+        owned["lower_sideband"] = lsb
+        owned["signal_kwargs"] = skw
     if lsb is False and rs.get("omit_defaults"):
         # rely on the documented defaults (lower_sideband=False, signal_type=Signal)
         if st is pb.Signal and not skw:
